@@ -558,8 +558,69 @@ def c10_reuse(idx: int) -> bool:
     return run(_reuse_point, idx)
 
 
+# ---- absolute-form targets: the same encoding rules whatever the spelling of the scheme ----------------------------------------
+
+ABS_ALPHA = '<>\\^`{|}" \u00e9%#?a/'
+ABS_SCHEMES = ["http", "HTTP", "Http"]
+
+
+def abs_dims(part):
+    return [[0, 1], list(range(len(ABS_SCHEMES))), strings_upto(ABS_ALPHA, part["maxlen"])]
+
+
+def _abs_body(front, si, x):
+    """An absolute URL handed to a pool (front 0) or sent through a forwarding proxy (front 1): the request-target on the wire is
+    the absolute-form of the normalised URL — illegal characters percent-encoded, fragment dropped — however the scheme is
+    spelled."""
+    from urllib3 import ProxyManager
+    url = "%s://h/%s" % (ABS_SCHEMES[si], x)
+    netw = N.install(Sink())
+    E.install_clock()
+    exc = None
+    try:
+        try:
+            if front == 0:
+                HTTPConnectionPool("h", 80).urlopen("GET", url, retries=False, assert_same_host=False)
+            else:
+                ProxyManager("http://proxy:3128").request("GET", url, retries=False)
+        except Exception as e:
+            exc = e
+        tx = b"".join(s.tx for s in netw.socks)
+    finally:
+        N.uninstall()
+        E.uninstall_clock()
+    if exc is not None:
+        if tx:
+            return _fail("%r: %r raised after bytes were written: %r" % (url, exc, tx[:100]))
+        if not isinstance(exc, (ValueError, HTTPError, UnicodeError, http.client.HTTPException)):
+            return _fail("%r: unexpected exception %r" % (url, exc))
+        mark("rejected")
+        return True
+    want = "http://h" + ref_target("/" + x)
+    sh = split_head(tx)
+    if sh is None:
+        return _fail("%r: no complete header block: %r" % (url, tx[:100]))
+    rl = sh[0]
+    if rl != b"GET " + want.encode("ascii") + b" HTTP/1.1":
+        return _fail("%r (front %d): request line %r, expected target %r" % (url, front, rl, want))
+    mark("sent")
+    return True
+
+
+def _abs_point(idx):
+    return N._untraced(_abs_body)(*decode_point(idx, abs_dims))
+
+
+def c10_abs(idx: int) -> bool:
+    """
+    pre: 0 <= idx < P.n
+    post: _
+    """
+    return run(_abs_point, idx)
+
+
 DIMS = {"c10_body": body_dims, "c10_field": field_dims, "c10_auto": auto_dims, "c10_skip": skip_dims, "c10_h2": h2_dims,
-        "c10_reuse": reuse_dims}
+        "c10_reuse": reuse_dims, "c10_abs": abs_dims}
 
 
 # ---- E2 lemmas -------------------------------------------------------------------------------------------------------
@@ -690,6 +751,7 @@ def JOBS(tier):
     jobs.append({"func": "c10_body", "timeout": t, "samples": 1, "part": {"maxlen": 2 if quick else 3}})
     jobs.append({"func": "c10_h2", "timeout": t, "part": {"maxlen": 2 if quick else 3}})
     jobs.append({"func": "c10_reuse", "timeout": t, "samples": 1, "part": {}})
+    jobs.append({"func": "c10_abs", "timeout": t, "samples": 1, "part": {"maxlen": 2 if quick else 3}})
     return jobs
 
 
